@@ -45,6 +45,14 @@ CLAIMED = {
              "and whether it is justified, is out of reach.",
         note="Covers Error::new/stream/use_stderr/exit_code only.",
         ref="2 C10"),
+    "C12": dict(
+        text="PARTIAL. Solver-decided absence of integer overflow/underflow in the help column arithmetic (align_to_about, subcmd, arg_next_line_help, subcommand_next_line_help, "
+             "with longest_filter and Arg::is_positional inlined) translated from the nightly compiler's MIR of the current tree to SMT bit-vectors and discharged by z3 and cvc5; "
+             "the link between `longest` and the widths is derived from the MIR of write_args' loop body (incl. a discharged monotonicity obligation). "
+             "Says nothing about which items are listed, templates, wrapping or usage.",
+        note="Call results (display widths, Arg getters) are free symbols under the contracts listed in the evidence; loops are not encoded (one loop body is); "
+             "a sat answer is only reported after a native replay on a family of concrete commands panics.",
+        ref="2 C12", technique="own MIR->SMT-LIB2 translation of loop-free scalar kernels (bit-vectors), z3 + cvc5, native replay"),
     "C13": dict(
         text="Bounded model checking of the real clap_lex through its public API: for EVERY byte string of each length up to the bound (all 256 values per byte) "
              "the classification is consistent, to_long re-assembles, the short-cluster walk and next_value_os return exactly the unread bytes, number shapes match a reference DFA; "
@@ -108,6 +116,8 @@ def main():
         "engines": [
             {"name": "kani", "path": "/verif/runner/kani.py", "serves_properties": sorted(p for p in CLAIMED if p != "C12"),
              "kind_free_text": "Kani 0.68/CBMC 6.11 harnesses (kani/lex external crate; harness/*.rs included into clap_builder under cfg clap_verif); counterexamples replayed natively via concrete playback"},
+            {"name": "mirsmt", "path": "/verif/runner/mir_check.py", "serves_properties": ["C12"],
+             "kind_free_text": "MIR (cargo +nightly rustc -Zunpretty=mir, overflow checks on) of loop-free scalar functions -> SMT-LIB2 bit-vector queries (mirsmt/*.py), decided by z3 and cvc5; candidates realised by a native #[test] in the harness module"},
         ],
         "checks": checks,
         "not_applicable": [{"property_id": k, "reason": v} for k, v in sorted(na.items())],
@@ -121,7 +131,6 @@ def main():
 if __name__ == "__main__":
     # properties with a design but no finished check yet are listed as not applicable *for now*
     PENDING.update({
-        "C12": "check under construction (MIR->SMT engine for help padding arithmetic)",
     })
     for k in list(PENDING):
         if k in CLAIMED:
